@@ -80,7 +80,7 @@ m = {
     "kind_free_text": "derives run seeds from VERIF_SEED, one fresh interpreter per batch/world with chosen PYTHONHASHSEED, shrinks and replays violations, writes evidence"},
  ],
  "checks": checks,
- "notes": "Technique family: deterministic simulation with fault injection. Fix commits in /repo: 7394bc5 (F2 TruncNormal sampler), 7b3b763 (F1 shared cli goals), f63cc8c (F5 exact_func_moments class flag), d37bec9 (F6 alias/unique name collision), c39653f (F7 AcyclicSolver validity offsets), f6eceea (F8 CyclicSolver zero roots), 240328d (F4 numeric complex roots), 195d71d (F10 typer and repeated initial assignments), f9d8be5 (F11 simulated tail probabilities at equality), 4602b08 (F12 sensitivity goal order). Open known findings: F3 (C05), F9 (C20). See DESIGN.md and known_findings.json.",
+ "notes": "Technique family: deterministic simulation with fault injection. Fix commits in /repo: 7394bc5 (F2 TruncNormal sampler), 7b3b763 (F1 shared cli goals), f63cc8c (F5 exact_func_moments class flag), d37bec9 (F6 alias/unique name collision), c39653f (F7 AcyclicSolver validity offsets), f6eceea (F8 CyclicSolver zero roots), 240328d (F4 numeric complex roots), 195d71d (F10 typer and repeated initial assignments), f9d8be5 (F11 simulated tail probabilities at equality), 4602b08 (F12 sensitivity goal order), 61cb2d2 (F3 types after guard exit). Open known findings: F13 (C05, variables without initial value), F9 (C20). See DESIGN.md and known_findings.json.",
  "not_applicable": [{"property_id": k, "reason": v} for k, v in sorted(na.items())],
 }
 json.dump(m, open(os.path.join(V, "MANIFEST.json"), "w"), indent=1)
